@@ -7,6 +7,8 @@ use super::{Digest, ElementHasher, Hasher, StarkField};
 
 mod rp62_248;
 pub use rp62_248::Rp62_248;
+#[cfg(winterfell_verif)]
+pub(crate) use rp62_248::verif as rp62_248_verif;
 
 mod rp64_256;
 pub use rp64_256::Rp64_256;
